@@ -54,7 +54,9 @@ pub fn serialize_salted(events: &[Value], variant: usize, salt: usize) -> Doc {
         let t = match salt {
             0 => format!("{}{:03}", p, n),
             1 => format!("other {} &lt;{}&gt; value", p, n * 7),
-            3 => if p == "c" { "&co;".to_string() } else { ["&co;", "&nbsp;", "AT&T"][n % 3].to_string() },
+            3 => if p == "c" { ["&co;", "x]]y", "]]"][n % 3].to_string() } else { ["&co;", "&nbsp;", "AT&T"][n % 3].to_string() },
+            // 4: empty attribute values (character data keeps its token: text versus no text is structure)
+            4 => if p == "v" { String::new() } else { format!("{}{:03}", p, n) },
             _ => "  ".to_string(),
         };
         tokens.push(t.clone());
